@@ -35,6 +35,11 @@ Theorem C03_facts_mutators :
   same_fn "stateObject.setState".
 Proof. vm_compute. repeat split; reflexivity. Qed.
 
+(** when an account counts as empty / existing / self-destructed *)
+Theorem C03_facts_predicates :
+  same_fn "stateObject.isEmpty" /\ same_fn "StateDB.Empty" /\ same_fn "StateDB.Exist" /\ same_fn "StateDB.HasSuicided".
+Proof. vm_compute. repeat split; reflexivity. Qed.
+
 (** the access list: when AddAddress / AddSlot report a change (= when a journal entry is made) *)
 Theorem C03_facts_access_list :
   same_fn "StateDB.AddAddressToAccessList" /\ same_fn "StateDB.AddSlotToAccessList" /\
